@@ -150,7 +150,7 @@ func findEndTime(moov *mp4.MoovBox, durationMS int) (endTime, endTimescale uint6
 	//trakDur := float64(trak.Tkhd.Duration) / float64(moov.Mvhd.Timescale)
 	//fmt.Printf("video trak %d duration = %.3fs\n", trak.Tkhd.TrackID, trakDur)
 	endTimescale = uint64(syncTrak.Mdia.Mdhd.Timescale)
-	endTime = uint64(durationMS) * endTimescale / 1000
+	endTime = (uint64(durationMS)*endTimescale + 999) / 1000 // Round up to not end before the requested time
 
 	stbl := syncTrak.Mdia.Minf.Stbl
 	stts := stbl.Stts // TimeToSampleBox
